@@ -29,7 +29,7 @@ THEOREMS = [
     "ESV.C16.separator_invisible", "ESV.C16.trailing_comment_invisible", "ESV.C16.render_lex",
     "ESV.C16.layout_irrelevant_tokens", "ESV.C16.needs_sep_sound", "ESV.C16.line_joining_swallows_form_feed",
     "ESV.C16.boundary_examples", "ESV.C16.int_spelling_irrelevant", "ESV.C16.int_zero_spellings",
-    "ESV.C16.decimal_leading_zeros_irrelevant", "ESV.C16.quote_style_irrelevant", "ESV.C16.multiline_form_irrelevant",
+    "ESV.C16.decimal_leading_zeros_irrelevant", "ESV.C16.negative_decimal_examples", "ESV.C16.quote_style_irrelevant", "ESV.C16.multiline_form_irrelevant",
     "ESV.C16.for_target_words", "ESV.C16.header_spelling_irrelevant", "ESV.C16.header_other_word",
     "ESV.C16.label_marker_irrelevant",
     "ESV.Lex.lits_ok", "ESV.Lex.types_ok", "ESV.Lex.for_target_ok", "ESV.Lex.atn_known", "ESV.Lex.sym_noext_sep",
@@ -94,6 +94,103 @@ def add_macros(g: ProgGen, ast: dict) -> None:
         ast["order"] = order
 
 
+# literals whose spelling matters: every program gets some of these (the plain generator produces them too rarely for the
+# quick tier: negative decimals with a non-zero whole part, names and strings that contain quote characters, negative ints)
+DEC_POOL = ["-7.5", "-12.25", "-1.0", "-30.125", "-10.5", "-100.01", "-2.75", "10.5", "100.01", "7.5", "0.0034", "-0.0034", "3.0",
+            "-0.5", "0.25", "-.5", ".75", "20.50", "-20.50", "1.5"]
+NEG_NONZERO_DEC = ["-7.5", "-12.25", "-1.0", "-30.125", "-10.5", "-100.01", "-2.75", "-20.50"]
+INT_POOL = [-1, -8, -16, -255, -20000, 0, 8, 64, 4096, 65535]
+STR_POOL = ["Chatot's spot", 'say "hi"', "both ' and \"", "'", '"', "''", '""', "it's\nnew line", "", " lead", "trail ", "tab\tin", "a" + "'" * 3 + "b", "x" + '"' * 3 + "y",
+            "ends with '", 'ends with "', "äß 'é' 😀", "// no comment", "/* none */"]
+NAME_POOL = ["Chatot's spot", 'the "big" one', "a'b\"c", "'", '"', "plain", "", "it's", 'q"', "é's"]
+POS_NUMS = ["0", "12", "-3", "3.5", "7.0", "0.5", "-2.5", "255", ".5", "-12.5", "20.5", "9.50"]
+LIB_NAMES = ["lib.exps", "it's lib.exps", 'the "lib".exps', "äß.exps", "a'b\"c.exps"]
+
+
+def sensitive_arg(r: random.Random) -> dict:
+    c = r.random()
+    if c < 0.4:
+        return {"k": "dec", "v": r.choice(DEC_POOL)}
+    if c < 0.55:
+        return {"k": "int", "v": r.choice(INT_POOL)}
+    if c < 0.75:
+        return {"k": "str", "v": r.choice(STR_POOL), "quote": r.choice(['"', "'"])}
+    if c < 0.85:
+        return {"k": "lang", "v": [[l, r.choice(STR_POOL)] for l in r.sample(["english", "french", "german"], r.randint(1, 2))], "trailing_comma": r.random() < 0.5}
+    return {"k": "pos", "name": r.choice(NAME_POOL), "x": r.choice(POS_NUMS), "y": r.choice(POS_NUMS), "quote": r.choice(["'", '"'])}
+
+
+def enrich(r: random.Random, ast: dict) -> None:
+    """put spelling-sensitive literals into every kind of place a literal can stand in: integer-like slots of headers,
+    assignments, cases, contexts (decimals and negative integers), string slots (constant strings, language strings, menu
+    cases, message-switch cases), position-mark names, and every argument list"""
+    arglists: list[tuple[list, bool]] = []
+
+    def visit(x: Any) -> None:
+        if isinstance(x, list):
+            for v in x:
+                visit(v)
+            return
+        if not isinstance(x, dict):
+            return
+        k = x.get("k")
+        if k == "int":
+            c = r.random()
+            if c < 0.12:
+                x.clear()
+                x.update({"k": "dec", "v": r.choice(DEC_POOL)})
+            elif c < 0.22:
+                x["v"] = r.choice(INT_POOL)
+                x.pop("sp", None)
+            return
+        if k == "dec":
+            if r.random() < 0.5:
+                x["v"] = r.choice(DEC_POOL)
+            return
+        if k == "str":
+            if r.random() < 0.35:
+                x["v"] = r.choice(STR_POOL)
+            return
+        if k == "lang":
+            for pair in x["v"]:
+                if r.random() < 0.35:
+                    pair[1] = r.choice(STR_POOL)
+            return
+        if k == "pos":
+            if r.random() < 0.6:
+                x["name"] = r.choice(NAME_POOL)
+            if r.random() < 0.4:
+                x["x"], x["y"] = r.choice(POS_NUMS), r.choice(POS_NUMS)
+            return
+        if isinstance(x.get("args"), list):
+            arglists.append((x["args"], x.get("t") == "macrocall"))
+        for v in x.values():
+            visit(v)
+
+    bodies = [rt["body"] for rt in ast["routines"] if rt["body"] is not None] + [m["body"] for m in ast.get("macros", [])]
+    for b in bodies:
+        visit(b)
+    for args, is_call in arglists:
+        if is_call:
+            for i in range(len(args)):
+                if r.random() < 0.3:
+                    args[i] = sensitive_arg(r)
+        else:
+            while r.random() < 0.35:
+                args.insert(r.randint(0, len(args)), sensitive_arg(r))
+    # every program: at least one negative decimal with a non-zero whole part and one mark whose name contains a quote
+    free = [a for a, is_call in arglists if not is_call]
+    if not free and bodies:
+        st = {"t": "op", "name": "Wait", "args": []}
+        bodies[0].insert(0, st)
+        free = [st["args"]]
+    if free:
+        r.choice(free).append({"k": "dec", "v": r.choice(NEG_NONZERO_DEC)})
+        r.choice(free).append({"k": "pos", "name": r.choice(NAME_POOL[:5]), "x": r.choice(POS_NUMS), "y": r.choice(POS_NUMS), "quote": r.choice(["'", '"'])})
+        if r.random() < 0.5:
+            r.choice(free).append({"k": "str", "v": r.choice(STR_POOL[:8]), "quote": r.choice(["'", '"'])})
+
+
 def gen_asts(rng: random.Random, n: int, tier: str) -> list[dict]:
     cfgs = []
     for c in escommon.default_cfgs(tier):
@@ -102,12 +199,56 @@ def gen_asts(rng: random.Random, n: int, tier: str) -> list[dict]:
         cfgs.append(c)
     out = []
     for i in range(n):
-        g = ProgGen(random.Random(rng.getrandbits(48)), cfgs[i % len(cfgs)])
+        r = random.Random(rng.getrandbits(48))
+        g = ProgGen(r, cfgs[i % len(cfgs)])
         ast = g.program()
         if not cfgs[i % len(cfgs)].coro:
             add_macros(g, ast)
-        out.append({"ast": ast, "stats": g.stats})
+        enrich(r, ast)
+        p = {"ast": ast, "stats": g.stats, "lib": None, "file": None}
+        if ast.get("macros") and r.random() < 0.4:
+            # the macros live in a file of their own that the program imports (the import path is a string literal too)
+            name = r.choice(LIB_NAMES)
+            p["lib"] = {"name": name, "macros": ast["macros"]}
+            ast["macros"] = []
+            ast.pop("order", None)
+            ast["imports"] = ["./" + name]
+        out.append(p)
     return out
+
+
+def write_libs(progs: list[dict], base: str) -> None:
+    """imported macro files of the programs that have one: <base>/p<i>/<lib name>; the program is compiled as <base>/p<i>/main.exps"""
+    import os
+    for i, p in enumerate(progs):
+        if p.get("lib"):
+            d = os.path.join(base, f"p{i}")
+            os.makedirs(d, exist_ok=True)
+            pr = surface.Printer()
+            for m in p["lib"]["macros"]:
+                pr.macro(m)
+            text, _ = surface.layout(pr.toks)
+            with open(os.path.join(d, p["lib"]["name"]), "w", encoding="utf-8") as fh:
+                fh.write(text)
+            p["file"] = os.path.join(d, "main.exps")
+
+
+def compile_items(pool: core.Pool, items: list[dict], chunk: int = 20, timeout: float = 180) -> list[dict]:
+    """items: {"text", "file" | None} -> compile results (escommon.compile_all with a file name per text)"""
+    args = [{"text": it["text"], **({"file": it["file"]} if it.get("file") else {})} for it in items]
+    chunks = [args[i:i + chunk] for i in range(0, len(args), chunk)]
+    outs = pool.map("harness.impl_es:compile_many", chunks, timeout=timeout)
+    res: list[dict] = []
+    for ch, o in zip(chunks, outs):
+        if isinstance(o, list):
+            res += o
+        else:
+            for s_ in pool.map("harness.impl_es:compile_text", ch, timeout=timeout):
+                if isinstance(s_, dict) and ("__timeout__" in s_ or "__died__" in s_ or "__exc__" in s_):
+                    res.append({"error": "NoAnswer", "msg": json.dumps(s_)[:200], "site": "", "no_answer": True})
+                else:
+                    res.append(s_)
+    return res
 
 
 # ----------------------------------------------------------------------------------------------------------------------
@@ -147,7 +288,7 @@ def observable(res: dict) -> dict:
         "posmarks": [m[4:] for m in sm.get("pos_marks", [])] + [[y[0], y[1], y[2][4:]] for y in mac.get("pos_marks", [])],
         "srcmap": [sorted(sm.get("map", {}).keys(), key=int),
                    sorted([[k, v[0], v[1], v[5], v[6]] for k, v in mac.get("map", {}).items()], key=lambda e: int(e[0]))],
-        "macro_order": res.get("macro_order"),
+        "macro_order": res.get("macro_order"), "imports": res.get("imports"),
     }
 
 
@@ -157,7 +298,7 @@ def differences(ref: dict, res: dict) -> list[tuple[str, str]]:
         return [("rejected_" + res["error"], f"the reference rendering compiles, this one is rejected: {res['error']}: {res.get('msg', '')[:160]}")]
     a, b = observable(ref), observable(res)
     out = []
-    for f in ("ops", "infos", "coros", "posmarks", "srcmap", "macro_order"):
+    for f in ("ops", "infos", "coros", "posmarks", "srcmap", "macro_order", "imports"):
         if a[f] != b[f]:
             what = f"{f} differ"
             if f == "ops":
@@ -180,12 +321,12 @@ def first_op_difference(a: list, b: list) -> str:
     return "?"
 
 
-def compile_pair(pool: core.Pool, t1: str, t2: str) -> tuple[dict, dict]:
-    r = escommon.compile_all(pool, [t1, t2], chunk=2, timeout=60)
+def compile_pair(pool: core.Pool, t1: str, t2: str, file: Any = None) -> tuple[dict, dict]:
+    r = compile_items(pool, [{"text": t1, "file": file}, {"text": t2, "file": file}], chunk=2, timeout=60)
     return r[0], r[1]
 
 
-def attribute(pool: core.Pool, ast: dict, spec: dict, fields: set[str]) -> tuple[str, dict]:
+def attribute(pool: core.Pool, ast: dict, spec: dict, fields: set[str], file: Any = None) -> tuple[str, dict]:
     """which single dimension of the rendering `spec` already changes one of `fields`? -> (dimension, its spec)"""
     ref_spec = {"dims": [], "rs": 0, "style": "canonical", "ls": 0}
     ref_text, _ = render(ast, ref_spec)
@@ -194,16 +335,16 @@ def attribute(pool: core.Pool, ast: dict, spec: dict, fields: set[str]) -> tuple
     cands.append(("layout", {"dims": [], "rs": 0, "style": spec["style"], "ls": spec["ls"]}))
     for d, sp in cands:
         t, _ = render(ast, sp)
-        a, b = compile_pair(pool, ref_text, t)
+        a, b = compile_pair(pool, ref_text, t, file)
         if "error" not in a and any(f in fields for f, _ in differences(a, b)):
             return d, sp
     return "combination", spec
 
 
-def check_variant(pool: core.Pool, ast: dict, spec: dict) -> list[tuple[str, str]]:
+def check_variant(pool: core.Pool, ast: dict, spec: dict, file: Any = None) -> list[tuple[str, str]]:
     ref_text, _ = render(ast, {"dims": [], "rs": 0, "style": "canonical", "ls": 0})
     t, _ = render(ast, spec)
-    a, b = compile_pair(pool, ref_text, t)
+    a, b = compile_pair(pool, ref_text, t, file)
     if "error" in a:
         return []
     return differences(a, b)
@@ -262,6 +403,97 @@ def lexer_tie(run: core.Run, pool: core.Pool, drv: core.Driver, texts: list[str]
     return {"texts": len(texts), "tokens": toks, "mismatches": bad, "token_types_seen": len(types)}
 
 
+def shrink_args(ast: dict, still_fails: Any, budget: int = 60) -> dict:
+    """second shrinking pass below statement level: drop single arguments, language-string entries and case entries"""
+    def lists(a: dict) -> list[list]:
+        out: list[list] = []
+
+        def visit(x: Any) -> None:
+            if isinstance(x, list):
+                for v in x:
+                    visit(v)
+            elif isinstance(x, dict):
+                if isinstance(x.get("args"), list) and x.get("t") != "macrocall":
+                    out.append(x["args"])
+                if x.get("k") == "lang" and len(x["v"]) > 1:
+                    out.append(x["v"])
+                if x.get("t") == "msgswitch":
+                    out.append(x["cases"])
+                for v in x.values():
+                    visit(v)
+        visit([rt["body"] for rt in a["routines"] if rt["body"] is not None])
+        visit([m["body"] for m in a.get("macros", [])])
+        return out
+    cur = copy.deepcopy(ast)
+    evals = 0
+    progress = True
+    while progress and evals < budget:
+        progress = False
+        n = len(lists(cur))
+        for li in range(n):
+            j = 0
+            while evals < budget:
+                ls = lists(cur)
+                if li >= len(ls) or j >= len(ls[li]):
+                    break
+                trial = copy.deepcopy(cur)
+                lt = lists(trial)[li]
+                del lt[j]
+                evals += 1
+                ok = False
+                try:
+                    ok = still_fails(trial)
+                except Exception:
+                    ok = False
+                if ok:
+                    cur = trial
+                    progress = True
+                else:
+                    j += 1
+    return cur
+
+
+def lib_record(p: dict) -> Any:
+    if not p.get("lib"):
+        return None
+    pr = surface.Printer()
+    for m in p["lib"]["macros"]:
+        pr.macro(m)
+    return {"name": p["lib"]["name"], "text": surface.layout(pr.toks)[0]}
+
+
+def difference_shape(a: dict, b: dict) -> str:
+    """narrow shape of the first differing op parameter (suffix of the violation kind)"""
+    if "error" in a or "error" in b or a.get("ops") == b.get("ops") or len(a["ops"]) != len(b["ops"]):
+        return ""
+    for ra, rb in zip(a["ops"], b["ops"]):
+        if len(ra) != len(rb):
+            return ""
+        for oa, ob in zip(ra, rb):
+            if oa == ob:
+                continue
+            if oa["name"] != ob["name"] or len(oa["params"]) != len(ob["params"]):
+                return ":op"
+            for pa, pb in zip(oa["params"], ob["params"]):
+                if pa == pb:
+                    continue
+                if isinstance(pa, dict) and isinstance(pb, dict):
+                    if "fx" in pa and "fx" in pb:
+                        v = pa["fx"]
+                        whole = v.lstrip("-").split(".")[0].lstrip("0")
+                        return ":fx_" + ("negative" if v.startswith("-") else "positive") + ("_nonzero_whole" if whole else "_zero_whole")
+                    if "pm" in pa and "pm" in pb:
+                        names = ["name", "x_offset", "y_offset", "x_relative", "y_relative"]
+                        i = next(i for i in range(5) if pa["pm"][i] != pb["pm"][i])
+                        extra = "_with_quote" if i == 0 and ("'" in pa["pm"][0] or '"' in pa["pm"][0]) else ""
+                        return ":pm_" + names[i] + extra
+                    for key in ("s", "ls", "c"):
+                        if key in pa and key in pb:
+                            return ":" + {"s": "string", "ls": "language_string", "c": "constant"}[key]
+                return ":param_" + type(pa).__name__ + "_vs_" + type(pb).__name__
+    return ""
+
+
 # ----------------------------------------------------------------------------------------------------------------------
 def run(run: core.Run) -> int:
     quick = run.tier == "quick"
@@ -284,9 +516,13 @@ def run(run: core.Run) -> int:
     n_viol = 0
     tie: dict = {}
     pair_stats: dict = {}
+    import shutil
+    import tempfile
+    lib_dir = tempfile.mkdtemp(prefix="c16_imports_", dir="/tmp")
     try:
+        write_libs(progs, lib_dir)
         flat = [t for p in progs for t in p["texts"]]
-        results = escommon.compile_all(pool, flat, chunk=20, timeout=180)
+        results = compile_items(pool, [{"text": t, "file": p["file"]} for p in progs for t in p["texts"]], chunk=20, timeout=180)
         pos = 0
         for p in progs:
             p["res"] = results[pos:pos + len(p["texts"])]
@@ -314,18 +550,21 @@ def run(run: core.Run) -> int:
                 n_viol += 1
                 fields = {f for f, _ in diffs}
                 if n_viol <= 4:
-                    dim, sp1 = attribute(pool, p["ast"], sp, fields)
+                    dim, sp1 = attribute(pool, p["ast"], sp, fields, p["file"])
 
-                    def still(a: dict, sp1: dict = sp1, fields: set = fields) -> bool:
-                        return any(f in fields for f, _ in check_variant(pool, a, sp1))
+                    def still(a: dict, sp1: dict = sp1, fields: set = fields, file: Any = p["file"]) -> bool:
+                        return any(f in fields for f, _ in check_variant(pool, a, sp1, file))
                     small = escommon.shrink(p["ast"], still, budget=60 if quick else 200)
-                    d2 = [d for d in check_variant(pool, small, sp1) if d[0] in fields] or diffs
+                    small = shrink_args(small, still, budget=40 if quick else 120)
+                    d2 = [d for d in check_variant(pool, small, sp1, p["file"]) if d[0] in fields] or diffs
                     st, _ = render(small, sp1)
                     rt, _ = render(small, {"dims": [], "rs": 0, "style": "canonical", "ls": 0})
-                    run.violation(f"{dim}:{d2[0][0]}", f"re-spelling dimension '{dim}' changes the compilation: {d2[0][1]}",
-                                  {"reference_text": rt, "respelled_text": st, "spec": sp1, "ast": small, "original_text": t})
+                    ra, rb = compile_pair(pool, rt, st, p["file"])
+                    run.violation(f"{dim}:{d2[0][0]}{difference_shape(ra, rb)}", f"re-spelling dimension '{dim}' changes the compilation: {d2[0][1]}",
+                                  {"reference_text": rt, "respelled_text": st, "spec": sp1, "ast": small, "original_text": t, "lib": lib_record(p)})
                 else:
-                    run.violation(f"unattributed:{diffs[0][0]}", diffs[0][1], {"reference_text": p["texts"][0], "respelled_text": t, "spec": sp})
+                    run.violation(f"unattributed:{diffs[0][0]}{difference_shape(ref, r)}", diffs[0][1],
+                                  {"reference_text": p["texts"][0], "respelled_text": t, "spec": sp, "lib": lib_record(p)})
         # ---- tie 1: printer token lists (what `render_lex` is about) and separator table
         drv = core.Driver() if prep["driver_ok"] else None
         if drv is not None:
@@ -338,6 +577,7 @@ def run(run: core.Run) -> int:
             pair_stats = token_checks(run, pool, drv, progs, quick)
     finally:
         pool.close()
+        shutil.rmtree(lib_dir, ignore_errors=True)
     if not prep["proofs_ok"] or not aud["ok"] or not prep["driver_ok"]:
         run.broken_tie("Lean obligations of C16 do not check (build/audit/table tie)",
                        {"theorems": THEOREMS, "log": prep["log"][-3000:], "audit": {k_: v for k_, v in aud.items() if k_ != "theorems"}})
@@ -353,7 +593,7 @@ def run(run: core.Run) -> int:
             for d in sp["dims"]:
                 dims_used["dim:" + d] += 1
     cov = core.proof_coverage(run, prep, aud, MODULES, THEOREMS, {
-        "programs": len(progs), "renderings_per_program": k, "outcomes": dict(stats), "disagreements": n_viol,
+        "programs": len(progs), "programs_importing_their_macros": sum(1 for p in progs if p.get("lib")), "renderings_per_program": k, "outcomes": dict(stats), "disagreements": n_viol,
         "evaluations": len(progs) * k, "distinct_nontrivial": core.distinct(t for p in progs for t in p["texts"] if "error" not in p["res"][0]),
         "rule": "grammar-directed random programs (harness/gen/programs.py, int styles on) with macros called from routines; each rendered k times: "
                 "canonical / dense / random layout (random blanks, line comments, block comments, line joinings at every token boundary) x "
@@ -434,8 +674,22 @@ def replay(run: core.Run, path: str) -> int:
     if "reference_text" not in rp:
         print("replay file carries no program pair (tie break):", json.dumps(rp)[:400])
         return 1
-    a = impl_es.compile_text({"text": rp["reference_text"]})
-    b = impl_es.compile_text({"text": rp["respelled_text"]})
+    extra: dict = {}
+    tmp = None
+    if rp.get("lib"):
+        import os
+        import tempfile
+        tmp = tempfile.mkdtemp(prefix="c16_replay_", dir="/tmp")
+        with open(os.path.join(tmp, rp["lib"]["name"]), "w", encoding="utf-8") as fh:
+            fh.write(rp["lib"]["text"])
+        extra = {"file": os.path.join(tmp, "main.exps")}
+    try:
+        a = impl_es.compile_text({"text": rp["reference_text"], **extra})
+        b = impl_es.compile_text({"text": rp["respelled_text"], **extra})
+    finally:
+        if tmp:
+            import shutil
+            shutil.rmtree(tmp, ignore_errors=True)
     if "error" in a:
         print("reference no longer compiles:", a["error"])
         return 1
